@@ -405,6 +405,40 @@ example (dt : Dt) : formatDt "hh".toList dt = .ok (.text (fmtD0 2 (hour12 dt.hou
   rw [h, show k_hh = fun t dt => hour12 t.tm_hour from funext fun t => funext fun dt => (token_hh t dt).1]
   rfl
 
+/-- END-TO-END correctness of the default format (the fast path every record takes unless a format is configured):
+for every instant whose offset is non-negative or a whole number of minutes (outside: F1) -/
+theorem default_format_correct (dt : Dt) (h : 0 ≤ dt.offsetUs ∨ dt.offsetUs % 60000000 = 0) :
+    formatDt fastPathSpec dt = .ok (.text (defaultSpecText dt)) := by
+  have hf : defaultFormatString = "%04d".toList ++ (['-'] ++ ("%02d".toList ++ (['-'] ++ ("%02d".toList ++ ([' '] ++
+      ("%02d".toList ++ ([':'] ++ ("%02d".toList ++ ([':'] ++ ("%02d".toList ++ (['.'] ++ ("%03d".toList ++ ([' '] ++
+      ("%s".toList ++ [])))))))))))))) := by decide
+  have ha : defaultArgs.map (·.eval (timetuple dt) dt) =
+      [(Kernel.int fun _ d => d.year).eval (timetuple dt) dt, (Kernel.int fun _ d => d.month).eval (timetuple dt) dt,
+       (Kernel.int fun _ d => d.day).eval (timetuple dt) dt, (Kernel.int fun _ d => d.hour).eval (timetuple dt) dt,
+       (Kernel.int fun _ d => d.minute).eval (timetuple dt) dt, (Kernel.int fun _ d => d.second).eval (timetuple dt) dt,
+       (Kernel.int fun _ d => d.microsecond / 1000).eval (timetuple dt) dt,
+       (Kernel.str fun _ d => formatTimezone d ":".toList).eval (timetuple dt) dt] := rfl
+  unfold formatDt
+  simp only [beq_self_eq_true, if_true]
+  rw [hf, ha]
+  rw [percentFormat_conv _ _ rfl, percentFormat_text _ _ _ (by decide),
+      percentFormat_conv _ _ rfl, percentFormat_text _ _ _ (by decide),
+      percentFormat_conv _ _ rfl, percentFormat_text _ _ _ (by decide),
+      percentFormat_conv _ _ rfl, percentFormat_text _ _ _ (by decide),
+      percentFormat_conv _ _ rfl, percentFormat_text _ _ _ (by decide),
+      percentFormat_conv _ _ rfl, percentFormat_text _ _ _ (by decide),
+      percentFormat_conv _ _ rfl, percentFormat_text _ _ _ (by decide),
+      percentFormat_conv _ _ rfl]
+  have hz : formatTimezone dt [':'] = tzSpec dt.offsetUs [':'] := token_Z_partial dt _ h
+  simp [percentFormat, Except.map, fmtVal, Kernel.eval, defaultSpecText, hz]
+
+/-- … and with the suffix: the same text for the converted instant, whose offset prints `+00:00` – for EVERY instant
+(no guard: the converted offset is 0, outside the region of F1) -/
+theorem default_format_utc_correct (dt : Dt) :
+    formatDt (fastPathSpec ++ utcSuffix) dt = .ok (.text (defaultSpecText (toUtc dt))) := by
+  rw [utc_suffix_converts fastPathSpec dt (by decide) (by decide) (by decide) (by decide)]
+  exact default_format_correct (toUtc dt) (Or.inl (by rw [(toUtc_same_instant dt).2.1]; decide))
+
 /-! ### Round 5: `_format_timezone` / `_timestamp_microseconds` as the source has them NOW -/
 
 /-- the hand-written `formatTimezone` the token kernels `Z`, `ZZ` and the default format call IS the function
@@ -454,15 +488,38 @@ theorem token_Z_generated (t : Tm) (dt : Dt) (h : 0 ≤ dt.offsetUs ∨ dt.offse
   · rw [(token_Z_is_formatTimezone t dt).1, token_Z_partial dt _ h]
   · rw [(token_Z_is_formatTimezone t dt).2, token_Z_partial dt _ h]
 
+/-- the loop of `_compile_format` that the hand-written `build` (over `scan`) mirrors is, statement for statement and up
+to the names of its locals, the one modelled: text between matches appended verbatim (`spec[pos:start]`, then
+`spec[pos:]`), `match.group(0)` looked up in the table, its conversion appended and its kernel pushed in match order,
+anything not in the table appended without its first and last character (`token[1:-1]`) -/
+theorem build_loop_is_the_modelled_one : buildLoopShape = [
+  "v0 = ''",
+  "v1 = []",
+  "v2 = 0",
+  "for v3 in pattern.finditer(SPEC):",
+  "    v4, v5 = v3.span()",
+  "    v0 += SPEC[v2:v4]",
+  "    v2 = v5",
+  "    v6 = v3.group(0)",
+  "    try:",
+  "        v7, v8 = TABLE[v6]",
+  "    except KeyError:",
+  "        v0 += v6[1:-1]",
+  "    else:",
+  "        v0 += v7",
+  "        v1.append(v8)",
+  "v0 += SPEC[v2:]"] := by decide
+
 /-! ### Round 5: state that survives from one call to the next -/
 
 /-- what the source says about cross-call state (all regenerated): the memoiser of `_compile_format` is keyed by the
 whole spec `__format__` received; no function reachable from `__format__` writes a global, an attribute, an item, or
 mutates anything it did not create itself; `_loguru_datetime_formatter` converts to UTC before it reads any field and
-passes the kernels' values in formatter order -/
+passes the kernels' values in formatter order; `aware_now` (the record's time) and what it calls remember nothing from one
+record to the next -/
 theorem source_keeps_no_other_state :
     cacheKeyIsWholeSpec = true ∧ formatStateWrites = [] ∧ utcConversionFirst = true ∧
-    argsInFormatterOrder = true := by decide
+    argsInFormatterOrder = true ∧ awareNowStateWrites = [] := by decide
 
 theorem sourceKey_injective : ∀ a b, sourceKey a = sourceKey b → a = b := by
   have h : sourceKey = id := by unfold sourceKey; rw [source_keeps_no_other_state.1]; rfl
